@@ -299,6 +299,9 @@ def l2_suite(profile, quick=60, thorough=1500, native=True, name=None, extra_mon
                 for j, (x, y) in enumerate(zip(iops, mops)):
                     if x == y:
                         continue
+                    if desc_sparse_excuse(c, x, y) and ctx.prop not in ('C06', 'C08'):
+                        res.stats_excused = getattr(res, 'stats_excused', 0) + 1
+                        continue   # recorded under C06 (finding F-C06-2); not what this property is about
                     if desc_sparse_excuse(c, x, y):
                         kid = known_match(ctx, 'desc_scan_sparse_interior_node')
                         m = dict(suite=res.name, case=c, op_index=j, impl=' '.join(x), model=' '.join(y)[:300],
@@ -321,8 +324,10 @@ def l2_suite(profile, quick=60, thorough=1500, native=True, name=None, extra_mon
                          what='s3db table and native SQLite table disagree on the same statement')
                 if desc_sparse_excuse(c, s3c, mask_empty_text(nat)) or desc_sparse_excuse(c, s3c, nat):
                     kid = known_match(ctx, 'desc_scan_sparse_interior_node')
+                    if ctx.prop not in ('C06', 'C08'): continue
                 elif mask_empty_text(nat) == s3c:
                     kid = known_match(ctx, 'empty_text_reads_null')
+                    if ctx.prop not in ('C06', 'C08'): continue
                 else:
                     kid = None
                 if kid:
@@ -370,8 +375,10 @@ def parse_sql_ops(case):
             i = j + 1
         elif k in ('begin', 'commit', 'rollback'): i = names(i + 2)
         elif k == 'refresh': i = names(names(i + 2))
-        elif k == 'version': i += 2
-        elif k == 'vacuum': i = names(i + 3)
+        elif k in ('version', 'rdconn'): i += 2
+        elif k == 'dl': i += 3
+        elif k == 'vacuum': i = names(names(names(i + 3)))
+        elif k == 'changes': i = names(names(i + 2))
         else: raise ValueError('parse_sql_ops: ' + k)
     return ops
 
@@ -385,7 +392,7 @@ def c02_monitor(ctx, res, case, impl_line, model_line, spec):
             continue
         idx, want = ent.split(':', 1)
         idx = int(idx); want = want.split(',')
-        got = iops[idx] if idx < len(iops) else ['<missing>']
+        got = [t for t in (iops[idx] if idx < len(iops) else ['<missing>']) if not t.startswith('RO:')]
         if got == want:
             res.stats_spec_equal = getattr(res, 'stats_spec_equal', 0) + 1
             continue
@@ -396,12 +403,17 @@ def c02_monitor(ctx, res, case, impl_line, model_line, spec):
         dels = {(o[2]) for o in ops if o[0] == 'del'}
         upd_del = any(o[0] == 'upd' and o[2] in dels for o in ops)
         kid = None
+        shape = None
         if mask_empty_text(want) == got:
-            kid = known_match(ctx, 'empty_text_reads_null')
+            shape = 'empty_text_reads_null'
         elif partial:
-            kid = known_match(ctx, 'partial_update_rewrites_row')
+            shape = 'partial_update_rewrites_row'
         elif upd_del:
-            kid = known_match(ctx, 'update_resurrects_deleted')
+            shape = 'update_resurrects_deleted'
+        if shape and ctx.prop != 'C02':
+            continue   # recorded under C02 / C08; not what this property is about
+        if shape:
+            kid = known_match(ctx, shape)
         if kid:
             m['finding'] = kid; res.known_hits.append(m)
         else:
@@ -470,3 +482,117 @@ def l1c_suite(quick=120, thorough=3000):
     return f
 
 register('C04', [l1c_suite()], ['a crash is the loss of every request after some point of the sequential request stream; node PUTs of one flush are explored in the order they were observed'])
+
+# ---------------------------------------------------------------- more L2 monitors
+def l2_ops(impl_line):
+    a2, pairs = cmpmod.split_native(impl_line)
+    return [x.split() for x in cmpmod.canon(a2, False).split(' ; ')][1:]
+
+def c13_monitor(ctx, res, case, impl_line, model_line, spec):
+    """a read-only table never issues PUT or DELETE; its writes fail"""
+    ops = parse_sql_kinds(case)
+    ro_conns = ro_connections(case)
+    for j, toks in enumerate(l2_ops(impl_line)):
+        for t in toks:
+            if t.startswith('RO:') and t != 'RO:0':
+                res.property_failures.append(dict(suite=res.name, case=case, op_index=j + 1, impl=' '.join(toks)[:400],
+                                                  what=f'a read-only table issued {t[3:]} mutating storage request(s)'))
+                return
+        if j < len(ops) and ops[j][0] in ('ins', 'upd', 'del') and ops[j][1] in ro_conns:
+            if toks and toks[0] == 'ok' and ops[j][0] == 'ins':
+                res.property_failures.append(dict(suite=res.name, case=case, op_index=j + 1, impl=' '.join(toks)[:400],
+                                                  what='INSERT into a read-only table reported success'))
+                return
+
+def parse_sql_kinds(case):
+    """(kind, conn) for every op of a sqlhist case, in order"""
+    t = case.split()
+    i = 6
+    out = []
+    def sval_len(i): return 1 if t[i] == 'N' else 2
+    def names(i): return i + 1 + int(t[i])
+    while i < len(t):
+        k = t[i]
+        if k == 'conn': out.append((k, int(t[i + 1]))); i += 2
+        elif k == 'create': out.append((k, int(t[i + 1]), t[i + 2])); i = names(names(i + 3))
+        elif k in ('wt', 'dl'): out.append((k, int(t[i + 1]))); i += 3
+        elif k == 'ins':
+            c = int(t[i + 1]); j = i + 2 + sval_len(i + 2); n = int(t[j]); j += 1
+            for _ in range(n): j += sval_len(j)
+            out.append((k, c)); i = names(j)
+        elif k == 'upd':
+            c = int(t[i + 1]); j = i + 2 + sval_len(i + 2); n = int(t[j]); j += 1
+            for _ in range(n):
+                if t[j] == '_': j += 1
+                else: j += 1 + sval_len(j + 1)
+            out.append((k, c)); i = names(j)
+        elif k == 'del':
+            c = int(t[i + 1]); out.append((k, c)); i = names(i + 2 + sval_len(i + 2))
+        elif k == 'sel':
+            c = int(t[i + 1]); j = i + 3; n = int(t[j]); j += 1
+            for _ in range(n): j += 1 + sval_len(j + 1)
+            out.append((k, c)); i = j + 1
+        elif k in ('begin', 'commit', 'rollback'): out.append((k, int(t[i + 1]))); i = names(i + 2)
+        elif k == 'refresh': out.append((k, int(t[i + 1]))); i = names(names(i + 2))
+        elif k in ('version', 'rdconn'): out.append((k, int(t[i + 1]))); i += 2
+        elif k == 'vacuum': out.append((k, int(t[i + 1]))); i = names(names(names(i + 3)))
+        elif k == 'changes': out.append((k, int(t[i + 1]))); i = names(names(i + 2))
+        else: raise ValueError('parse_sql_kinds: ' + k)
+    return out
+
+def ro_connections(case):
+    return {o[1] for o in parse_sql_kinds(case) if o[0] == 'create' and o[2] == 't'}
+
+def c09_monitor(ctx, res, case, impl_line, model_line, spec):
+    """vacuum leaves the visible rows unchanged (same connection, fresh connection) and every
+    remaining version readable"""
+    for j, toks in enumerate(l2_ops(impl_line)):
+        if 'VB' not in toks or 'VA' not in toks:
+            continue
+        vb, va, vf0, vf, rw = toks.index('VB'), toks.index('VA'), toks.index('VF0'), toks.index('VF'), toks.index('RW')
+        before, after, fresh0, fresh, reach = toks[vb + 1:va], toks[va + 1:vf0], toks[vf0 + 1:vf], toks[vf + 1:rw], toks[rw + 1:rw + 2]
+        res.vacuums = getattr(res, 'vacuums', 0) + 1
+        what = None
+        if before != after:
+            what = 'rows visible through the vacuuming connection changed'
+        elif fresh != fresh0:
+            what = 'a connection opened after the vacuum sees different rows than one opened just before it'
+        elif reach != ['ok']:
+            what = 'a remaining version refers to a deleted or unreadable object: ' + ' '.join(reach)
+        if what:
+            res.property_failures.append(dict(suite=res.name, case=case, op_index=j + 1, what=what,
+                                              before=' '.join(before)[:600], after=' '.join(after)[:600], fresh=' '.join(fresh)[:600]))
+            return
+
+def c15_monitor(ctx, res, case, impl_line, model_line, spec):
+    """connection attributes read back what was set; the automatic transaction time is
+    never visible outside its transaction"""
+    kinds = parse_sql_kinds(case)
+    intx = {}
+    for j, toks in enumerate(l2_ops(impl_line)):
+        if j >= len(kinds):
+            break
+        k, c = kinds[j][0], kinds[j][1]
+        if k == 'begin' and toks and toks[0] == 'ok': intx[c] = True
+        if k in ('commit', 'rollback'): intx[c] = False
+        if k == 'rdconn' and toks and toks[0] == 'ok' and len(toks) >= 3:
+            if toks[2] == 'A' and not intx.get(c):
+                res.property_failures.append(dict(suite=res.name, case=case, op_index=j + 1, impl=' '.join(toks),
+                                                  what='an automatic transaction write time is still set (and visible in s3db_conn) outside the transaction'))
+                return
+
+register('C13', [l2_suite('ro', native=False, extra_monitor=c13_monitor, name='l2-ro'), l1_suite(['rows', 'plain'])],
+         ['the request log of the HTTP proxy in front of gofakes3 sees every storage request'])
+register('C09', [l2_suite('vacuum', native=False, extra_monitor=c09_monitor, name='l2-vacuum'), l1_suite(['rows'])],
+         ['cutoffs are far from the wall clock (version creation times are not controlled at SQL level)'])
+register('C10', [l1_suite(['rows', 'plain']), l2_suite('vacuum', native=False, extra_monitor=c09_monitor, name='l2-vacuum')],
+         ['version creation times are passed explicitly at the kv level'])
+register('C15', [l2_suite('conn', native=False, extra_monitor=lambda *a: (c15_monitor(*a), c02_monitor(*a)), name='l2-conn')],
+         ['write times have second granularity (SQLiteTimeFormat)'])
+register('C05', [l2_suite('tx', name='l2-tx'), l2_suite('multi', native=False, extra_monitor=c02_monitor, name='l2-multi')],
+         ['SQLite calls xBegin once per transaction before the first xUpdate'])
+register('C12', [l2_suite('changes', native=False, name='l2-changes')], [])
+register('C11', [l2_suite('changes', native=False, name='l2-changes'), l1_suite(['rows', 'plain'])], [])
+register('C16', [l2_suite('multi', native=False, extra_monitor=c02_monitor, name='l2-multi'), l0_suite(['nodecodec']), l1_suite(['rows'])], [])
+register('C14', [l1_suite(['rows', 'plain', 'cb'], name='l1f', quick=250)], [])
+register('C03', [l1_suite(['rows', 'plain'], name='l1f', quick=200)], [])
